@@ -26,6 +26,14 @@ ENV.update({"CARGO_NET_OFFLINE": "true", "CARGO_TARGET_DIR": TARGET, "CARGO_TERM
 
 T0 = time.time()
 
+TRUSTED_BASE = [
+    "Coq 8.16.1 kernel (coqc), including its VM for vm_compute in reflection lemmas; no native_compute",
+    "axioms: none (Print Assumptions of every property theorem is re-run on each check and must be 'Closed under the global context')",
+    "extraction plugin with ExtrOcamlBasic only (bool, option, unit, list, prod, sumbool, sumor mapped to OCaml types; andb/orb inlined); no Extract Constant/Inductive of our own; OCaml 4.13.1; extract/driver.ml (corpus parser, printing)",
+    "hand-written Gallina model of strum_macros (coq/Model/*.v) tied to /repo by this run's differential correspondence; corpus generators, Rust renderer and observers (tools/), cargo/rustc",
+    "modelled not verified: syn attribute parsing, quote! assembly, generics/where-clauses/trait dispatch (decided by rustc on the corpus), Rust match semantics, phf, core::fmt",
+]
+
 
 def log(*a):
     print("[%6.1fs]" % (time.time() - T0), *a, file=sys.stderr, flush=True)
@@ -243,13 +251,34 @@ pub fn hex(b: &[u8]) -> String {
     for x in b { s.push_str(&format!("{:02x}", x)); }
     s
 }
-/// observation of one payload field: `d` when it equals Default::default(), `w:<fn>` when it equals
-/// the value of the named default_with function, else the hex of its Debug rendering
+/// observation of one payload field: `s:<hex>` for string-like fields; otherwise `d` when it equals
+/// Default::default(), `w:<fn>` when it equals the value of a known default_with function, else
+/// `h:<hex of Debug>`
+pub fn fobs_str(x: &str) -> String { format!("s:{}", hex(x.as_bytes())) }
 pub fn fobs<T: Default + PartialEq + std::fmt::Debug>(x: &T, dws: &[(&str, fn() -> T)]) -> String {
     for (name, f) in dws { if *x == f() { return format!("w:{}", name); } }
     if *x == T::default() { return "d".to_string(); }
-    hex(format!("{:?}", x).as_bytes())
+    format!("h:{}", hex(format!("{:?}", x).as_bytes()))
 }
+pub trait FObs { fn fobs(&self) -> String; }
+impl FObs for u8 { fn fobs(&self) -> String { fobs(self, &[("dw_u8", dw_u8 as fn() -> u8), ("dw_u8_b", dw_u8_b), ("dwm::dw_u8_path", dwm::dw_u8_path)]) } }
+impl FObs for i32 { fn fobs(&self) -> String { fobs(self, &[("dw_i32", dw_i32 as fn() -> i32)]) } }
+impl FObs for bool { fn fobs(&self) -> String { fobs(self, &[("dw_bool", dw_bool as fn() -> bool)]) } }
+impl FObs for usize { fn fobs(&self) -> String { fobs(self, &[("dw_usize", dw_usize as fn() -> usize)]) } }
+impl FObs for u16 { fn fobs(&self) -> String { fobs(self, &[]) } }
+impl FObs for i64 { fn fobs(&self) -> String { fobs(self, &[]) } }
+impl FObs for char { fn fobs(&self) -> String { fobs(self, &[]) } }
+impl<T: FObs + Default + PartialEq + std::fmt::Debug> FObs for Option<T> { fn fobs(&self) -> String { fobs(self, &[]) } }
+impl FObs for String { fn fobs(&self) -> String { fobs_str(self) } }
+impl FObs for &str { fn fobs(&self) -> String { fobs_str(self) } }
+impl FObs for Box<str> { fn fobs(&self) -> String { fobs_str(self) } }
+impl FObs for Wrap { fn fobs(&self) -> String { fobs_str(&self.0) } }
+/// a user type with From<&str>, Display and AsRef<str> (inner type of default / transparent variants)
+#[derive(Debug, Clone, PartialEq, Eq, Default, Hash)]
+pub struct Wrap(pub String);
+impl<'a> From<&'a str> for Wrap { fn from(s: &'a str) -> Wrap { Wrap(s.to_string()) } }
+impl std::fmt::Display for Wrap { fn fmt(&self, f: &mut std::fmt::Formatter) -> std::fmt::Result { std::fmt::Display::fmt(&self.0, f) } }
+impl AsRef<str> for Wrap { fn as_ref(&self) -> &str { &self.0 } }
 pub fn quiet_panics() { std::panic::set_hook(Box::new(|_| {})); }
 pub fn catch<F: FnOnce() -> String + std::panic::UnwindSafe>(f: F) -> String {
     match std::panic::catch_unwind(f) { Ok(s) => s, Err(_) => "panic".to_string() }
